@@ -18,12 +18,14 @@
     entity changes components, values or targets;
   * `exchange_rejected_dead`, `exchange_rejected_empty`, `exchange_rejected_misfit`,
     `exchange_rejected_badRel` — a call violating a precondition on the entity or the component
-    lists (every path), or naming a dead target / a non-relation component / a component not added
-    (typed paths), is refused with the world unchanged;
+    lists, or naming a dead target / a non-relation component / (through `ExchangeN` and
+    `Unsafe.Exchange`) a component not added, is refused with the world unchanged, on every path;
   * `exchange_accepted_only_if` — an accepted call was on a live entity with fitting lists.
 
-  Through `Unsafe` a relation list that does not fit is refused by `GetTable` / `createTable` after
-  the archetype was created (refused, not without effect) — as for `Add` and `NewEntity`.
+  (Since the repair of the `Unsafe` API all paths validate their relation arguments first.  What is
+  still refused only by `GetTable` / `createTable`, after the archetype was created — refused, not
+  without effect —, is a relation component of the new archetype without a relation and a relation
+  component named twice, as for `Add` and `NewEntity`, on every path.)
 
   §2 over histories (proofs: Ark/Proofs/RelExchangeMachine.lean, RelExchangeHist.lean).  The machine
   `Ark.RelRefine3`: `Op3 = base2 (op : Op2) | xchg p e add vals rem rels` on top of the machine of
@@ -34,8 +36,10 @@
   * `refines`, `alive_iff_specified` — the refinement statement of C01Rel for the extended machine;
   * `xchg_keeps_invariant` — the step keeps `HInv2` (⊇ `TInv`, refinement, cache invariant);
   * `xchg_rejected` / `xchg_accepted` — an `xchg` step (guard: a handle the client holds, registered
-    components to add, a well-formed relation list, expressible targets, through `Unsafe` valid
-    ones) whose precondition `preXchg` (a statement about the specification only) fails is
+    components to add, a relation list naming no relation component twice and every relation
+    component added — `RelsStep` —, expressible targets; dead targets, relations on non-relation
+    components and on components that are not added included, on every path since the repair of
+    the `Unsafe` API) whose precondition `preXchg` (a statement about the specification only) fails is
     rejected with the whole machine state unchanged; one whose precondition holds succeeds;
   * `xchg_effect`, `xchg_entry`, `xchg_others` — the entity gets exactly the entry `xchgEntry`
     (C01: components, values; C04: targets), nobody else's entry changes;
@@ -116,16 +120,17 @@ theorem exchange_rejected_misfit (run : ProbeRunner) (p : Path) (e : Ent) (add :
     ∃ (k : PanicKind), opExchange run p e add vals rem rels w = .panic k w :=
   opExchange_rel_misfit run p e add vals rem rels w hl hb h
 
-/-- **rejected** (typed paths): a dead target, a relation on a non-relation component, through
-    `ExchangeN` a relation on a component that is not added -/
-theorem exchange_rejected_badRel (run : ProbeRunner) (p : Path) (hp : p ≠ .unsafe_) (e : Ent)
+/-- **rejected** (every path, since the repair of the `Unsafe` API): a dead target, a relation on
+    a non-relation component, through `ExchangeN` and `Unsafe.Exchange` a relation on a component
+    that is not added -/
+theorem exchange_rejected_badRel (run : ProbeRunner) (p : Path) (e : Ent)
     (add : List Comp) (vals : List (Comp × Val)) (rem : List Comp) (rels : List RelID) (w : World)
     (hl : w.isLocked = false)
     (hbad : ∃ (r : RelID), r ∈ rels ∧
       ((r.target.isZero = false ∧ w.alive r.target = false) ∨ w.isRelComp r.comp = false ∨
-        (p = .typed ∧ (Mask.ofList add).get r.comp = false))) :
+        (p ≠ .map1 ∧ (Mask.ofList add).get r.comp = false))) :
     ∃ (k : PanicKind), opExchange run p e add vals rem rels w = .panic k w :=
-  opExchange_rel_badRel run p hp e add vals rem rels w hl hbad
+  opExchange_rel_badRel run p e add vals rem rels w hl hbad
 
 /-- **accepted only if** the entity is alive and the component lists fit -/
 theorem exchange_accepted_only_if (run : ProbeRunner) (p : Path) (e : Ent) (add : List Comp)
@@ -221,7 +226,8 @@ example :
 
 /-- the rejections, observed (tables and archetypes unchanged): dead handle; both lists empty; removing an absent
     component; adding a present one; adding and removing the same; a dead target and a non-relation
-    component through `ExchangeN` -/
+    component through `ExchangeN`, and — since the repair of the `Unsafe` API — through
+    `Unsafe.Exchange` (next example) -/
 example :
     summary (opExchange noRun .typed ⟨9, 0⟩ [2] [] [] [] x4).state = summary x4 ∧
     panicOf (opExchange noRun .unsafe_ ⟨9, 0⟩ [2] [] [] [] x4) = some .deadEntity ∧
@@ -236,6 +242,27 @@ example :
       (summary x4, x4.archetypes.length) := by
   refine ⟨?_, ?_, ?_, ?_, ?_, ?_, ?_, ?_, ?_⟩ <;> decide +kernel
 
+/-- REPAIRED (`Unsafe.Exchange` validates its relation arguments like `ExchangeN.Exchange`): a
+    dead target, a non-relation component, a relation on a component that is not added — refused
+    with the classes of the typed path, tables and archetypes unchanged.  (Before the repair the
+    first two were caught by `createTable` after the archetype had been created, and the third
+    was silently ignored when the new archetype had no relation component.) -/
+example :
+    panicOf (opExchange noRun .unsafe_ c4 [3] [] [] [⟨3, ⟨9, 0⟩⟩] x4) = some .deadTarget ∧
+    panicOf (opExchange noRun .unsafe_ c4 [2] [] [] [⟨2, q2⟩] x4) = some .notRelation ∧
+    panicOf (opExchange noRun .unsafe_ c4 [2] [] [] [⟨3, q2⟩] x4) = some .relNotInMask ∧
+    panicOf (opExchange noRun .unsafe_ c4 [] [] [1] [⟨3, q2⟩] x4) = some .relNotInMask ∧
+    (summary (opExchange noRun .unsafe_ c4 [3] [] [] [⟨3, ⟨9, 0⟩⟩] x4).state,
+      (opExchange noRun .unsafe_ c4 [3] [] [] [⟨3, ⟨9, 0⟩⟩] x4).state.archetypes.length) =
+      (summary x4, x4.archetypes.length) ∧
+    (summary (opExchange noRun .unsafe_ c4 [2] [] [] [⟨2, q2⟩] x4).state,
+      (opExchange noRun .unsafe_ c4 [2] [] [] [⟨2, q2⟩] x4).state.archetypes.length) =
+      (summary x4, x4.archetypes.length) ∧
+    (summary (opExchange noRun .unsafe_ c4 [2] [] [] [⟨3, q2⟩] x4).state,
+      (opExchange noRun .unsafe_ c4 [2] [] [] [⟨3, q2⟩] x4).state.archetypes.length) =
+      (summary x4, x4.archetypes.length) := by
+  refine ⟨?_, ?_, ?_, ?_, ?_, ?_, ?_⟩ <;> decide +kernel
+
 /-- the hypotheses of the rejection theorems are satisfiable -/
 example :
     x4.alive ⟨9, 0⟩ = false ∧
@@ -243,12 +270,16 @@ example :
       ([] : List Comp).Nodup ∧ ∀ (c : Comp), c ∈ ([] : List Comp) → (x4.maskOf c4).get c = false) ∧
     (∃ (r : RelID), r ∈ [(⟨3, ⟨9, 0⟩⟩ : RelID)] ∧
       ((r.target.isZero = false ∧ x4.alive r.target = false) ∨ x4.isRelComp r.comp = false ∨
-        (Path.typed = .typed ∧ (Mask.ofList [3]).get r.comp = false))) := by
-  refine ⟨?_, ?_, ?_⟩ <;> decide +kernel
+        (Path.typed ≠ .map1 ∧ (Mask.ofList [3]).get r.comp = false))) ∧
+    (∃ (r : RelID), r ∈ [(⟨3, q2⟩ : RelID)] ∧
+      ((r.target.isZero = false ∧ x4.alive r.target = false) ∨ x4.isRelComp r.comp = false ∨
+        (Path.unsafe_ ≠ .map1 ∧ (Mask.ofList [2]).get r.comp = false))) := by
+  refine ⟨?_, ?_, ?_, ?_⟩ <;> decide +kernel
 
-/-- **finding** (as for `Add` / `NewEntity`): through `Unsafe` a relation list that does not fit is
-    refused only after the archetype was created — here a missing target for the added relation
-    component `Likes`: the call panics and leaves a new archetype behind -/
+/-- **finding** (as for `Add` / `NewEntity`; on every path, not touched by the repair of the
+    `Unsafe` API): a relation component that is added without a relation for it is refused only
+    after the archetype was created — here a missing target for the added relation component
+    `Likes`: the call panics and leaves a new archetype behind -/
 example :
     panicOf (opExchange noRun .unsafe_ c4 [3] [] [] [] x4) = some .relUnspecified ∧
     (x4.archetypes.length, (opExchange noRun .unsafe_ c4 [3] [] [] [] x4).state.archetypes.length) =
@@ -408,6 +439,29 @@ example :
     Ark.Props.C01Rel.agrees (reach3 C04World.noRun 2 2 demoOps) = true ∧
     (demoOps.all fun op => !op.isReset) = true := by
   refine ⟨?_, ⟨?_, ?_⟩, ?_, ⟨?_, ?_⟩, ?_, ?_, ?_, ?_, ?_⟩ <;> decide +kernel
+
+open Ark.RelRefine Ark.RelRefine2 Ark.RelRefine3 Ark.Refine in
+/-- REPAIRED `Unsafe.Exchange`: in the state after step 9, a relation on a component that is not
+    added, a relation on a non-relation component and a pure removal with a relation are steps of
+    the machine whose precondition fails — rejected, the specification and the tables unchanged
+    (`xchg_rejected`).  (Before the repair they were not steps: `Unsafe` noticed them in
+    `createTable`, after the archetype had been created, or not at all.) -/
+example :
+    guardXchg (reach3 C04World.noRun 2 2 (demoOps.take 9)) .unsafe_ c4 [1] [⟨0, q2⟩] = true ∧
+    guardXchg (reach3 C04World.noRun 2 2 (demoOps.take 9)) .unsafe_ c4 [1] [⟨1, q2⟩] = true ∧
+    guardXchg (reach3 C04World.noRun 2 2 (demoOps.take 9)) .unsafe_ c4 [] [⟨3, q1⟩] = true ∧
+    ¬ XchgOK (reach3 C04World.noRun 2 2 (demoOps.take 9)).ss ⟨[(0, 0), (2, 9), (3, 0)], [⟨0, q1⟩, ⟨3, q2⟩]⟩
+        [1] [] [⟨0, q2⟩] ∧
+    [panicOf (opExchange C04World.noRun .unsafe_ c4 [1] [] [] [⟨0, q2⟩]
+        (reach3 C04World.noRun 2 2 (demoOps.take 9)).w),
+     panicOf (opExchange C04World.noRun .unsafe_ c4 [1] [] [] [⟨1, q2⟩]
+        (reach3 C04World.noRun 2 2 (demoOps.take 9)).w),
+     panicOf (opExchange C04World.noRun .unsafe_ c4 [] [] [2] [⟨3, q1⟩]
+        (reach3 C04World.noRun 2 2 (demoOps.take 9)).w)] =
+      [some .relNotInMask, some .notRelation, some .relNotInMask] ∧
+    (reach3 C04World.noRun 2 2 (demoOps.take 9 ++ [.xchg .unsafe_ c4 [1] [] [] [⟨0, q2⟩]])).ss.ents =
+      (reach3 C04World.noRun 2 2 (demoOps.take 9)).ss.ents := by
+  refine ⟨?_, ?_, ?_, ?_, ?_, ?_⟩ <;> decide +kernel
 
 open Ark.RelRefine Ark.RelRefine2 Ark.RelRefine3 in
 /-- … continued by a `Reset`, two new entities (the handles of the new epoch re-use the IDs) and
